@@ -90,3 +90,25 @@ Theorem C13_restore_learners_joint_roundtrip : forall mi mb li cs c p,
        (In x (cs_learners cs) \/ In x (cs_learners_next cs)) /\ x <> 0 /\ In x (cs_voters_outgoing cs)).
 Proof. exact restore_learners_joint_fresh. Qed.
 Print Assumptions C13_restore_learners_joint_roundtrip.
+
+(* "every member has exactly one progress record (and non-members none)": the first half is a
+   clause of cfg_wf above; the second half is not tested by checkInvariants and is an invariant
+   of the Changer ([pinv c p]: whoever has a progress record is an incoming or outgoing voter,
+   a learner or a staged learner).  It holds of the empty tracker and every accepted Simple /
+   EnterJoint / LeaveJoint keeps it. *)
+Theorem C13_only_members_have_progress : forall t li al ccs c p,
+  pinv (t_config t) (t_progress t) ->
+  (changer_simple t li ccs = inl (c, p) -> pinv c p) /\
+  (changer_enter_joint t li al ccs = inl (c, p) -> pinv c p) /\
+  (changer_leave_joint t = inl (c, p) -> pinv c p).
+Proof.
+  intros t li al ccs c p PI.
+  exact (conj (changer_simple_pinv t li ccs c p PI)
+        (conj (changer_enter_joint_pinv t li al ccs c p PI) (changer_leave_joint_pinv t c p PI))).
+Qed.
+Print Assumptions C13_only_members_have_progress.
+
+Theorem C13_only_members_have_progress_initially : forall mi mb,
+  pinv (t_config (make_tracker mi mb)) (t_progress (make_tracker mi mb)).
+Proof. exact pinv_fresh. Qed.
+Print Assumptions C13_only_members_have_progress_initially.
